@@ -110,19 +110,20 @@ func (r *regime) sdRefund() *big.Int {
 }
 
 type tracer struct {
-	w       *world
-	rg      *regime
-	st      *state.StateDB
-	batch   ethdb.Batch
-	txHash  common.Hash
-	prop    string
-	viol    *violation
-	dead    bool
-	desync  bool // a failed frame was not (fully) reverted: only C12 judges the rest of this pass
-	enforce bool // re-enable access-list enforcement (vm.Config.Debug switches it off)
-	inject  int  // step index at which the running frame loses all its gas; -1 = never
-	tr      *simkit.Trace
-	record  bool // emit trace events (ample pass only)
+	w               *world
+	rg              *regime
+	st              *state.StateDB
+	batch           ethdb.Batch
+	txHash          common.Hash
+	prop            string
+	viol            *violation
+	dead            bool
+	innerEtxDropped bool
+	desync          bool // a failed frame was not (fully) reverted: only C12 judges the rest of this pass
+	enforce         bool // re-enable access-list enforcement (vm.Config.Debug switches it off)
+	inject          int  // step index at which the running frame loses all its gas; -1 = never
+	tr              *simkit.Trace
+	record          bool // emit trace events (ample pass only)
 
 	env       *vm.EVM
 	started   bool
@@ -268,6 +269,9 @@ func (t *tracer) noteFailure(f *frame) {
 	simkit.Global.Inc(fmt.Sprintf("fault.%s_at_depth%d", strings.ReplaceAll(f.fail, "-", "_"), min(f.depth, 4)))
 	if len(f.etxs) > 0 {
 		simkit.Global.Inc("probe.etx_emitted_then_reverted")
+		if f.depth >= 2 {
+			t.innerEtxDropped = true
+		}
 	}
 	if f.claims > 0 {
 		simkit.Global.Inc("probe.lockup_claim_in_reverted_frame")
